@@ -18,7 +18,12 @@ use proptest::{
 use serde::{de::DeserializeOwned, Serialize};
 use serde_json::{json, Value};
 
-pub const VERIF_ROOT: &str = "/verif";
+pub const VERIF_ROOT_DEFAULT: &str = "/verif";
+
+/// Root directory for evidence / replays / known findings (overridable for scratch runs).
+pub fn verif_root() -> String {
+    std::env::var("VERIF_ROOT").unwrap_or_else(|_| VERIF_ROOT_DEFAULT.to_string())
+}
 
 static OUT_FD: std::sync::atomic::AtomicI32 = std::sync::atomic::AtomicI32::new(1);
 
@@ -331,7 +336,7 @@ impl Ctx {
     }
 
     fn replay_dir(&self) -> PathBuf {
-        Path::new(VERIF_ROOT).join("replays").join(self.id)
+        Path::new(&verif_root()).join("replays").join(self.id)
     }
 
     fn write_replay_value(&self, check: &str, debug: &Value, bytes: &[u8], msg: &str) -> String {
@@ -679,7 +684,7 @@ impl Ctx {
             "violation_details": self.violations.iter().map(|v| json!({"check": v.check, "replay": v.replay, "message": truncate(v.message.clone(), 2000)})).collect::<Vec<_>>(),
         });
         if self.replay_only.is_none() {
-            let dir = Path::new(VERIF_ROOT).join("evidence");
+            let dir = Path::new(&verif_root()).join("evidence");
             let _ = std::fs::create_dir_all(&dir);
             let path = dir.join(format!("{}.json", self.id));
             if let Err(e) = std::fs::write(&path, serde_json::to_string_pretty(&ev).unwrap()) {
@@ -713,7 +718,7 @@ impl Ctx {
 }
 
 pub fn load_known_findings() -> Vec<KnownFinding> {
-    let path = Path::new(VERIF_ROOT).join("known_findings.json");
+    let path = Path::new(&verif_root()).join("known_findings.json");
     let Ok(s) = std::fs::read_to_string(path) else { return Vec::new() };
     #[derive(serde::Deserialize)]
     struct File {
